@@ -22,10 +22,17 @@ def build(tier):
                 role = (1, 2, 3)[i % 3]
                 ln = (1, 9)[i % 2]
                 qs.append(enc_query("C05", LDPC, k, r, ln, n1=n1, seed=s, role=role, en=EN, havoc=True))
+                if i % 3 == 0 or tier == "thorough":
+                    # the same session after a concrete earlier session with other (larger) parameters
+                    pk, pr, pn1, ps = ((7, 6, 5, 99), (8, 5, 4, 7), (3, 8, 6, 1234))[i % 3]
+                    q = enc_query("C05", LDPC, k, r, ln, n1=n1, seed=s, role=role, en=EN, havoc=True,
+                                  extra=dict(PRIOR_K=pk, PRIOR_R=pr, PRIOR_N1=pn1, PRIOR_SEED=ps))
+                    q.unwind = max(q.unwind, pn1 * pk + pk + pr + 16)
+                    qs.append(q)
     meta = dict(
         units=["src/lib_stable/ldpc_staircase/of_ldpc_staircase_pchk.c", "src/lib_common/of_rand.c", "src/lib_stable/ldpc_staircase/of_ldpc_staircase_api.c", "binary_matrix/of_matrix_sparse.c"],
         functions_encoded=["of_create_pchck_matrix_rfc5170_compliant", "of_rfc5170_srand", "of_rfc5170_rand", "of_mod2sparse_insert/find", "of_ldpc_staircase_set_fec_parameters", "of_ldpc_staircase_build_repair_symbol"],
-        bounds="(k,r) in %s, N1 in {3,4,5,r}, seeds %s, encoder / decoder / encoder+decoder sessions: (a) the session's parity-check matrix, traversed row by row right after of_set_fec_parameters, has exactly the entries of the reference matrix (own transcription of RFC 5170's pseudo-code, lib/ref.py, validated natively on 480 configurations against the library); (b) encoder sessions: every reference equation sums to zero over the built codeword for all source data; (c) any history: before of_set_fec_parameters the process-global PRNG state (all 2^64 values) and verbosity are symbolic, the matrix must still be the reference one" % (grid, seeds),
+        bounds="(k,r) in %s, N1 in {3,4,5,r}, seeds %s, encoder / decoder / encoder+decoder sessions: (a) the session's parity-check matrix, traversed row by row right after of_set_fec_parameters, has exactly the entries of the reference matrix (own transcription of RFC 5170's pseudo-code, lib/ref.py, validated natively on 480 configurations against the library); (b) encoder sessions: every reference equation sums to zero over the built codeword for all source data; (c) any history: before of_set_fec_parameters the process-global PRNG state (all 2^64 values) and verbosity are symbolic, and in a third of the queries (all in thorough) a concrete earlier LDPC session with other, larger parameters is created, configured and released first; the matrix must still be the reference one" % (grid, seeds),
         outside_bounds="'all seeds' is not decidable here: the matrix is a function of ~N1*k scaled PRNG draws through double arithmetic; what lifts the seed grid is C19 (Park-Miller for all states, scaling exact for maxv<=15/255). Interoperability with third-party implementations is as good as the transcription of the RFC. k=1 deviates from the RFC text (the RFC's degree-1 fix-up loops forever when k=1; the library guards it) and is compared with the guarded reference",
         stubs=[], assumptions=STD_ASSUMPTIONS, exhaustive=False)
     return qs, meta
